@@ -236,3 +236,25 @@ enum ErrorPositionsInner {
     One(Pos),
     None,
 }
+
+/// Verification hooks (thin wrappers around private items; compiled only with
+/// the `verif-hooks` feature).
+#[cfg(feature = "verif-hooks")]
+#[doc(hidden)]
+#[allow(missing_docs)]
+pub mod verif_hooks {
+    pub use crate::parse::verif_hooks::*;
+
+    /// Wrapper around the crate-private `PositionCalculator`.
+    pub struct PosCalc<'a>(crate::pos::PositionCalculator<'a>);
+
+    impl<'a> PosCalc<'a> {
+        pub fn new(input: &'a str) -> Self {
+            Self(crate::pos::PositionCalculator::new(input))
+        }
+
+        pub fn step<R: pest::RuleType>(&mut self, pair: &pest::iterators::Pair<R>) -> crate::Pos {
+            self.0.step(pair)
+        }
+    }
+}
